@@ -1643,6 +1643,7 @@ impl<'comments> Formatter<'comments> {
             args.first(),
             Some(CallArg {
                 value: UntypedExpr::Var { name, .. },
+                label: None,
                 ..
             }) if name.contains(CAPTURE_VARIABLE)
         );
